@@ -631,6 +631,11 @@ func (s *Server) VerifySideChainHeader(cp *params.CaravelParams, seedHeader *typ
 		return consensus.ErrUnknownAncestor
 	}
 
+	// the header must be signed by the owner of the proposer credential, as in verifyHeader/VerifySeal
+	if err := s.verifySignature(header); err != nil {
+		return err
+	}
+
 	//verifyConsensusField
 	return s.verifyConsensusFieldMain(cp, seedHeader, vldReader, certHeader, certVldReader, block.Header())
 }
